@@ -459,6 +459,9 @@ class World:
         self.ctor_models[clsname] = make
 
     def delitem_model(self, obj, idx, it, node):
+        for h in getattr(self, 'delitem_hooks', []):
+            if h(obj, idx, it, node) is not NotImplemented:
+                return
         if isinstance(obj, dict) and not S.is_sym(idx):
             if idx not in obj:
                 it.raise_('KeyError', idx, node=node)
